@@ -116,9 +116,76 @@ func Arg(c ssa.CallInstruction, i int) ssa.Value {
 		i--
 	}
 	if i < len(cc.Args) {
+		return ThroughHelpers(cc.Args[i])
+	}
+	return nil
+}
+
+// ArgRaw is Arg without looking through helper boundaries: the operand as it stands in the calling function (what the engines
+// that keep per-function state – interpreter frames, bounds facts, lock sets – must use).
+func ArgRaw(c ssa.CallInstruction, i int) ssa.Value {
+	cc := c.Common()
+	if cc.IsInvoke() {
+		if i == 0 {
+			return cc.Value
+		}
+		i--
+	} else if mk := BoundMethodClosure(c); mk != nil {
+		if i == 0 {
+			return mk.Bindings[0]
+		}
+		i--
+	}
+	if i < len(cc.Args) {
 		return cc.Args[i]
 	}
 	return nil
+}
+
+// ThroughHelpers looks through the boundaries of helpers that are analysed as part of their callers: a parameter of such a helper
+// (with one call site) is the argument of that call, a result of such a helper (unique up to zero values on its error returns) is
+// the value it returns. Variable cells and closure captures are left alone (that is Resolve's job).
+func ThroughHelpers(v ssa.Value) ssa.Value {
+	for i := 0; i < 8 && v != nil; i++ {
+		switch x := v.(type) {
+		case *ssa.Parameter:
+			g := x.Parent()
+			if !IsAbsorbed(g) {
+				return v
+			}
+			sites := SitesOf(g)
+			if len(sites) != 1 || sites[0].Common().IsInvoke() {
+				return v
+			}
+			idx := -1
+			for k, q := range g.Params {
+				if q == x {
+					idx = k
+				}
+			}
+			if idx < 0 || idx >= len(sites[0].Common().Args) {
+				return v
+			}
+			v = sites[0].Common().Args[idx]
+		case *ssa.Extract:
+			c, ok := x.Tuple.(*ssa.Call)
+			if !ok {
+				return v
+			}
+			h := AbsorbedCallee(c)
+			if h == nil {
+				return v
+			}
+			rv := uniqueResult(h, x.Index)
+			if rv == nil {
+				return v
+			}
+			v = rv
+		default:
+			return v
+		}
+	}
+	return v
 }
 
 // NArgs counts arguments incl. the receiver.
@@ -142,6 +209,21 @@ func Unwrap(v ssa.Value) ssa.Value {
 			v = x.X
 		case *ssa.ChangeInterface:
 			v = x.X
+		case *ssa.Call:
+			// the module's generic cast helper is a conversion: math.CastTo[T](x) ≡ T(x)
+			if len(x.Call.Args) == 1 && !x.Call.IsInvoke() {
+				if g := x.Call.StaticCallee(); g != nil && g.Name() == "CastTo" {
+					o := g
+					if g.Origin() != nil {
+						o = g.Origin()
+					}
+					if o.Pkg != nil && strings.HasSuffix(o.Pkg.Pkg.Path(), "/pkg/math") {
+						v = x.Call.Args[0]
+						continue
+					}
+				}
+			}
+			return v
 		default:
 			return v
 		}
@@ -490,4 +572,29 @@ func reachesBlock(from, to *ssa.BasicBlock) bool {
 		stack = append(stack, b.Succs...)
 	}
 	return false
+}
+
+// MethodBehind: for the synthetic wrapper of a method value (`x.m` used as a function value) the method itself and 1 (its
+// parameters are shifted by the receiver); any other function and 0.
+func MethodBehind(fn *ssa.Function) (*ssa.Function, int) {
+	if fn == nil || !strings.HasPrefix(fn.Synthetic, "bound method wrapper") {
+		return fn, 0
+	}
+	var target *ssa.Function
+	InstrsOwn(fn, func(in ssa.Instruction) {
+		if c, ok := in.(ssa.CallInstruction); ok {
+			if g := c.Common().StaticCallee(); g != nil {
+				if len(g.Blocks) == 0 && g.Origin() != nil {
+					g = g.Origin()
+				}
+				if len(g.Blocks) > 0 {
+					target = g
+				}
+			}
+		}
+	})
+	if target == nil {
+		return fn, 0
+	}
+	return target, 1
 }
